@@ -1,5 +1,6 @@
 import Spine.EventsHist
 import Spine.EventsLock
+import Spine.EventsConn
 /-!
 # C15 — the event bus delivers every state change once, core first, without deadlock
 
@@ -142,6 +143,54 @@ example :
 theorem core_publish_blocks_witness :
     let s := lrun [.subscribe (0, 1), .snapshot 1, .acquire 1, .snapshot 2]
     s.holder = some 1 ∧ ¬ Enabled s (.acquire 2) := by decide
+
+/-- "Application handlers run asynchronously … without blocking": `Publish` never waits for an application handler.
+    In every reachable state in which `muHandle` is free, a new publication runs through all its sections, each
+    enabled when its turn comes, and returns — without any `appRun` event, whatever application handlers of earlier
+    publications are still pending. (If `muHandle` is held, its holder releases it by its own two events:
+    `c15_reentrant_ok`.) -/
+theorem c15_publish_never_waits_for_application_handlers (evs : List LEv) (p : Nat)
+    (hfree : (lrun evs).holder = none) (hnew : findPub (lrun evs).bus p = none) :
+    let s := lrun evs
+    let s1 := lstep s (.snapshot p)
+    let s2 := lstep s1 (.acquire p)
+    let s3 := lstep s2 (.deliver p)
+    let s4 := lstep s3 (.release p)
+    Enabled s (.snapshot p) ∧ Enabled s1 (.acquire p) ∧ Enabled s2 (.deliver p) ∧ Enabled s3 (.release p) ∧
+    phaseOf s4 p = some 2 ∧ s4.holder = none :=
+  publish_completes_without_appRun (lrun evs) p hfree hnew
+
+/-- non-vacuity: application handler (1,7) of publication 1 is spawned and has not run; publication 2 goes through -/
+example :
+    let evs : List LEv := [.subscribe (1, 7), .snapshot 1, .acquire 1, .deliver 1, .release 1]
+    (lrun evs).bus.pending = [(1, (1, 7))] ∧ (lrun evs).holder = none ∧ findPub (lrun evs).bus 2 = none ∧
+    phaseOf (lrun (evs ++ [.snapshot 2, .acquire 2, .deliver 2, .release 2])) 2 = some 2 := by decide
+
+/-- What the regenerated fact `publishBlocksOnlyOnTheTwoMutexes` excludes. In the member where the dispatch section
+    waits for the application handlers of earlier publications (a WaitGroup), an application handler that is still
+    inside HandleEvent stalls every later publication, and if it publishes itself the bus is dead: handler (1,7) of
+    publication 1 is unfinished (pending); publication 2 holds `muHandle` and waits for it; the handler's own nested
+    publication 3 waits for `muHandle`; the handler finishes (`appRun 1 (1,7)`) only after its nested Publish returns.
+    The code as written delivers publication 2 at once. -/
+theorem wait_member_deadlock_witness :
+    let s := lrun [.subscribe (1, 7), .snapshot 1, .acquire 1, .deliver 1, .release 1, .snapshot 2, .acquire 2, .snapshot 3]
+    (s.holder = some 2 ∧ s.bus.pending = [(1, (1, 7))] ∧ ¬ WEnabled s (.deliver 2) ∧ ¬ WEnabled s (.acquire 3)) ∧
+    Enabled s (.deliver 2) := by decide
+
+/-- Mechanism "the local device registers itself as core handler while peers are connected": in every history of
+    connections and disconnections, while a peer is connected the local device is a core-level handler — so
+    `c15_core_done_before_return` and `c15_core_before_application` apply to it for every event of a connected peer. -/
+theorem c15_internal_handler_while_connected (evs : List Conn.Ev) :
+    (Conn.run false evs).peers ≠ [] → (Conn.run false evs).subscribed = true :=
+  Conn.subscribed_while_connected evs
+
+/-- What the regenerated fact `coreSubscribedOnEverySetup` excludes: with the subscription made only once (a Once that
+    is never reset), after "connect, disconnect all, connect again" a peer is connected and the local device is not a
+    core handler; as written it is. -/
+theorem once_member_witness :
+    let evs : List Conn.Ev := [.connect 1, .disconnect 1, .connect 2]
+    ((Conn.run true evs).peers = [2] ∧ (Conn.run true evs).subscribed = false) ∧ (Conn.run false evs).subscribed = true := by
+  decide
 
 /-- What the regenerated fact `muReleasedBeforeMuHandle` (`Spine/Props/C15Gen.lean`) excludes. In the member where
     `Publish` keeps `mu` until it has `muHandle` (lock hand-over), two publishers at once and a core handler that
